@@ -185,10 +185,11 @@ Hypothesis wfp : wf_prog p.
 
 (* a Clean memo (in a state satisfying the invariant) holds its denotational value *)
 Theorem clean_memo_eq_spec s : Inv0 p s -> uf_prog -> exact_prog p ->
+  (forall i, dead p s i = false) ->
   forall j, memob p j = true -> st (getn s j) = Clean ->
   exists v, cache (getn s j) = Some v /\ spec s j = Some v.
 Proof.
-  intros I Huf Hex j. induction j as [j IH] using lt_wf_ind. intros Hm Hc.
+  intros I Huf Hex Hnd j. induction j as [j IH] using lt_wf_ind. intros Hm Hc.
   destruct (inv_rest _ _ _ _ I j (fun x => x)) as (R1 & R2 & R3 & R4 & _).
   destruct (memob_decl p j Hm) as (cm & e & Hd).
   unfold uncached_ok, needs_cur, needs_clean in *. rewrite Hd in *. cbn [needs_cur_n needs_clean_n] in *.
@@ -221,18 +222,18 @@ Hypothesis nsf : no_self_feed p.
    the logs of the memos it tracked) shows the source's current value; untracked entries are
    the values seen at that last run *)
 Theorem read_consistent : forall ops n cm e s' v,
-  wf_ops p ops -> decl_of p n = DMemo cm e ->
+  wf_ops p ops -> decl_of p n = DMemo cm e -> dead p (run_fixed p ops) n = false ->
   read_top p n (run_fixed p ops) = (s', v) ->
   cache (getn s' n) = Some v /\
   replay_body p n e (rlog (getn s' n)) = Some v /\
   ConsistentM p s' n.
 Proof.
-  intros ops n cm e s' v Hw Hd Hr.
+  intros ops n cm e s' v Hw Hd Hg Hr.
   assert (Hm : memob p n = true) by (unfold memob; rewrite Hd; auto).
   assert (He : effb p n = false) by (unfold effb; rewrite Hd; auto).
   assert (Hn : (n < length p)%nat).
   { destruct (Nat.lt_ge_cases n (length p)); auto. unfold decl_of in Hd. rewrite nth_overflow in Hd by auto. discriminate. }
-  destruct (read_consistent_cone p wfp nsf ops n s' v Hw Hn He Hr) as (I' & _ & Hmm & _).
+  destruct (read_consistent_cone p wfp nsf ops n s' v Hw Hn He Hg Hr) as (I' & _ & Hmm & _).
   destruct (Hmm Hm) as (Hc & Hca & Hcons). split; auto. split; auto.
   destruct (inv_rest _ _ _ _ I' n (fun x => x)) as (_ & R2 & _).
   unfold uncached_ok in R2. rewrite Hd in R2. destruct R2 as [_ R2]. auto.
@@ -242,15 +243,16 @@ Qed.
    value read is the denotational value of the memo over the current values of the signals *)
 Theorem read_eq_spec : forall ops n s' v,
   uf_prog -> exact_prog p -> wf_ops p ops -> (n < length p)%nat -> memob p n = true ->
+  dead p (run_fixed p ops) n = false -> (forall i, dead p s' i = false) ->
   read_top p n (run_fixed p ops) = (s', v) ->
   spec s' n = Some v /\ (forall i, sval (getn s' i) = sval (getn (run_fixed p ops) i)).
 Proof.
-  intros ops n s' v Huf Hex Hw Hn Hm Hr.
+  intros ops n s' v Huf Hex Hw Hn Hm Hg Hnd Hr.
   assert (He : effb p n = false).
   { unfold effb, memob in *. destruct (decl_of p n); congruence. }
-  destruct (read_consistent_cone p wfp nsf ops n s' v Hw Hn He Hr) as (I' & Hsv & Hmm & _).
+  destruct (read_consistent_cone p wfp nsf ops n s' v Hw Hn He Hg Hr) as (I' & Hsv & Hmm & _).
   destruct (Hmm Hm) as (Hc & Hca & _).
-  destruct (clean_memo_eq_spec s' I' Huf Hex n Hm Hc) as (w & Hw' & Hs). split; auto. congruence.
+  destruct (clean_memo_eq_spec s' I' Huf Hex Hnd n Hm Hc) as (w & Hw' & Hs). split; auto. congruence.
 Qed.
 
 End P.
@@ -316,3 +318,21 @@ Example p_par_read :
   rlog (getn (fst r) 2%nat) = [(1%nat, 1, true)] /\ eqv p_par 1%nat 3 1 /\
   snd (read_top p_par 1%nat (run_fixed p_par ops_par)) = 3.
 Proof. vm_compute. auto. Qed.
+
+(* a source is disposed in the middle of a history: a, b = memo(a < 9), x, t = memo(b + x).
+   Disposing x runs nobody and changes no value (t keeps 11 = 1 + 10, also after a write to a
+   that leaves b unchanged: no invocation without a cause); when b really changes, t is
+   recomputed and reads 0 for the disposed x *)
+Definition p_drop : prog :=
+  [DSig false 1; DMemo CNe (Lt (Rd 0%nat) (Const 9)); DSig false 10; DMemo CNe (Add (Rd 1%nat) (Rd 2%nat))].
+Definition ops_drop1 : list op := [ORead 3%nat; ODropSrc 2%nat; OWrite 0%nat 3].
+Definition ops_drop2 : list op := ops_drop1 ++ [ORead 3%nat; OWrite 0%nat 20].
+Example p_drop_read :
+  let r1 := read_top p_drop 3%nat (run_fixed p_drop ops_drop1) in
+  let r2 := read_top p_drop 3%nat (run_fixed p_drop ops_drop2) in
+  snd r1 = 11 /\ nocause (fst r1) = 0%nat /\ dead p_drop (fst r1) 2%nat = true /\
+  rlog (getn (fst r1) 3%nat) = [(1%nat, 1, true); (2%nat, 10, true)] /\
+  snd r2 = 0 /\ nocause (fst r2) = 0%nat /\
+  rlog (getn (fst r2) 3%nat) = [(1%nat, 0, true); (2%nat, 0, true)] /\
+  dead p_drop (run_fixed p_drop ops_drop2) 3%nat = false.
+Proof. vm_compute. auto 10. Qed.
